@@ -274,6 +274,11 @@ func (r *Rtmp2RtspRemuxer) remux(msg base.RtmpMsg) {
 			var payload []byte
 			if msg.VideoCodecId() == base.RtmpCodecIdHevc && msg.IsEnchanedHevcNalu() {
 				index := msg.GetEnchanedHevcNaluIndex()
+				if len(msg.Payload) <= index {
+					// enhanced-rtmp CodedFrames carry a 3-byte composition time in front of the nalus
+					Log.Warnf("rtmp msg too short, ignore. header=%+v, payload=%s", msg.Header, hex.Dump(msg.Payload))
+					return
+				}
 				payload = msg.Payload[index:]
 			} else {
 				payload = msg.Payload[5:]
